@@ -131,7 +131,9 @@ def run(tier, seed):
          for e in ("ndjson", "geojson", "xtoml", "json.bak", "JSON", "toml~", "jsonl", "yaml")]
     # an invalid combination stays invalid whatever valid, orthogonal options accompany it
     extras = [["-m"], ["-E", "3"], ["-e", "2"], ["--filter-its-stave", "L0_12"], ["--its-trigger-period", "5", "--filter-its-stave", "L0_12"],
-              ["-m", "-E", "7", "--its-trigger-period", "1", "--filter-its-stave", "L0_12"]]
+              ["-m", "-E", "7", "--its-trigger-period", "1", "--filter-its-stave", "L0_12"],
+              # ... also the request to write a custom-checks template: a rejected invocation writes NOTHING, anywhere (seed C16-J)
+              ["--generate-checks-toml"]]
     for name, args, inp in list(special):
         if name.startswith("invalid:"):
             for k, ex in enumerate(extras):
@@ -286,8 +288,12 @@ def run(tier, seed):
 
     def swork(x):
         name, a, stdin, sp = x
-        rc, so, se, dt = core.run_cli(a, stdin_bytes=stdin, timeout=60)
-        return rc, so, se, os.path.exists(sp)
+        # every special case runs in its own empty working directory: whatever appears there was written by the run
+        wd = os.path.join(tmp, "wd_%s" % name.replace(":", "_").replace("+", "_"))
+        os.makedirs(wd, exist_ok=True)
+        rc, so, se, dt = core.run_cli(a, stdin_bytes=stdin, timeout=60, cwd=wd)
+        left = sorted(os.listdir(wd))
+        return rc, so, se, (os.path.exists(sp) or bool(left))
     for (name, a, stdin, sp), (rc, so, se, wrote) in zip(sj, core.par_map(swork, sj)):
         distinct.add(("special", name, rc if rc in (0, 1, 2) else "other"))
         if "panicked at" in se.decode("utf8", "replace") or not isinstance(rc, int) or rc < 0:
